@@ -204,6 +204,7 @@ struct SlabEngine : Engine {
 			}
 			hbase += nh;
 		}
+		if (mtx == MT_TICKET && rng.chance(1, 3)) p.knobs["age"] = (int64_t)(0xFFFFFFFFu - (uint32_t)rng.below(6)); // aged bucket locks: counters wrap during the run
 		if (P.poison && rng.chance(1, 2)) p.knobs["granule"] = 1; // KASAN-like policy: poison shadow with 8-byte granules
 		pick_strategy(rng, p, mtx != MT_SIM && prof == "C05");
 	}
@@ -872,6 +873,7 @@ struct SlabEngine : Engine {
 
 std::map<std::pair<int, uint64_t>, int64_t> SlabEngine::bps_cache;
 
+extern "C" uint32_t simh_lock_age() { return G->calibrating ? 0 : (uint32_t)plan().knob("age", 0); }
 extern "C" uintptr_t slabh_map(size_t len, size_t align) { return G->do_map(len, align); }
 extern "C" void slabh_unmap(uintptr_t base, size_t len) { G->do_unmap(base, len); }
 extern "C" void slabh_poison(int kind, void *p, size_t n) { G->do_poison(kind, p, n); }
